@@ -66,6 +66,12 @@ type Server struct {
 
 	wg   sync.WaitGroup
 	done chan struct{}
+	// doneLocker orders the closing of done against what must not happen
+	// after it: the registration of a listener or of a connection's wait
+	// group entry. It is never held while a backend callback runs, so that a
+	// Close or Shutdown called from a callback gets ErrServerClosed instead
+	// of waiting for the Close that called the callback.
+	doneLocker sync.Mutex
 
 	locker    sync.Mutex
 	listeners []net.Listener
@@ -87,18 +93,20 @@ func NewServer(be Backend) *Server {
 
 // Serve accepts incoming connections on the Listener l.
 func (s *Server) Serve(l net.Listener) error {
-	s.locker.Lock()
+	s.doneLocker.Lock()
 	select {
 	case <-s.done:
 		// Close or Shutdown has been called already: nobody would close
 		// this listener or make this call return any more.
-		s.locker.Unlock()
+		s.doneLocker.Unlock()
 		l.Close()
 		return ErrServerClosed
 	default:
 	}
+	s.locker.Lock()
 	s.listeners = append(s.listeners, l)
 	s.locker.Unlock()
+	s.doneLocker.Unlock()
 
 	var tempDelay time.Duration // how long to sleep on accept failure
 
@@ -131,19 +139,21 @@ func (s *Server) Serve(l net.Listener) error {
 		// running in between cannot miss it; if Close has run already it is up
 		// to us to end the connection.
 		conn := newConn(c, s)
-		s.locker.Lock()
+		s.doneLocker.Lock()
 		select {
 		case <-s.done:
-			// Close or Shutdown has begun (they do so under the lock): the
-			// connection is not served, and nobody is made to wait for it.
-			s.locker.Unlock()
+			// Close or Shutdown has begun: the connection is not served, and
+			// nobody is made to wait for it.
+			s.doneLocker.Unlock()
 			conn.Close()
 			return nil
 		default:
 		}
-		s.conns[conn] = struct{}{}
 		s.wg.Add(1)
+		s.locker.Lock()
+		s.conns[conn] = struct{}{}
 		s.locker.Unlock()
+		s.doneLocker.Unlock()
 
 		go func() {
 			defer s.wg.Done()
@@ -274,16 +284,18 @@ func (s *Server) ListenAndServeTLS() error {
 // Close returns any error returned from closing the server's underlying
 // listener(s).
 func (s *Server) Close() error {
-	s.locker.Lock()
+	s.doneLocker.Lock()
 	select {
 	case <-s.done:
-		s.locker.Unlock()
+		s.doneLocker.Unlock()
 		return ErrServerClosed
 	default:
 		close(s.done)
 	}
+	s.doneLocker.Unlock()
 
 	var err error
+	s.locker.Lock()
 	for _, l := range s.listeners {
 		if lerr := l.Close(); lerr != nil && err == nil {
 			err = lerr
@@ -306,16 +318,18 @@ func (s *Server) Close() error {
 // Shutdown returns the context's error, otherwise it returns any
 // error returned from closing the Server's underlying Listener(s).
 func (s *Server) Shutdown(ctx context.Context) error {
-	s.locker.Lock()
+	s.doneLocker.Lock()
 	select {
 	case <-s.done:
-		s.locker.Unlock()
+		s.doneLocker.Unlock()
 		return ErrServerClosed
 	default:
 		close(s.done)
 	}
+	s.doneLocker.Unlock()
 
 	var err error
+	s.locker.Lock()
 	for _, l := range s.listeners {
 		if lerr := l.Close(); lerr != nil && err == nil {
 			err = lerr
